@@ -605,14 +605,17 @@ func main() {
 	flag.Parse()
 	logging.SetLogger(quiet{})
 	rep := hx.NewReport("wsconc", *seed)
-	rep.Rule = "correspondence part: generated schedules of 6-27 operations (WriteMessage of 1-4 fragments / the held socket write returns ok or with an error / CloseAndClean) on a real " +
-		"websocket.Conn, direct and queued mode, queue bound 0 or 2-8, replayed in lock step on the extracted model; end-to-end part: per cell (upgrade path x epoll mode x BlockingModAsyncWrite, MaxWebsocketFramePayloadSize in {64,300,1024,4096}): 3-6 concurrent raw-TCP websocket clients; " +
+	rep.Rule = "correspondence part (frame limit 16): half random schedules of 6-27 operations (WriteMessage of a pong or of a zeros / text / seeded-random payload of 0..66 bytes, the held socket " +
+		"write returns ok or with an error, CloseAndClean) on a real websocket.Conn, direct and queued mode, queue bound 0 or 1-8, write compression off / on at levels -2..9; half points of the " +
+		"admission grid of a bounded queue (bound 1-8 x compression off / 12 levels x payload class x lengths k*16-2..k*16+2 for k=1..4 and lengths whose deflated size sits at a frame multiple " +
+		"x room left in the queue 0..needed+1; the whole grid in the thorough tier), replayed in lock step on the extracted model with the deflated length as oracle input, plus the wholeness " +
+		"oracle on the frames handed to the socket; end-to-end part: per cell (upgrade path x epoll mode x BlockingModAsyncWrite, MaxWebsocketFramePayloadSize in {64,300,1024,4096}): 3-6 concurrent raw-TCP websocket clients; " +
 		"per connection 1-10 server-side writer goroutines x 1-80 messages of 1 byte .. 8 frame payloads (the first connection of a cell: 6-10 writers x 40-80 multi-fragment messages), " +
 		"WriteMessage and WriteFrame, started from the open handler or from a message callback; 1-10 client messages (0..70000 bytes, 1-4 fragments, random TCP segmentation, " +
 		"slow handlers, echo replies), pings; endings: close frame, abrupt disconnect (idle / during a handler / during the writes), Close from another goroutine (idle / during a handler), " +
 		"Engine.Stop (idle / during a handler); non-trivial = more than one writer or more than one client message; distinct = distinct (cell, plan)"
 	if *only == "" || *only == "queue" {
-		queuePart(rep, *model, *seed, *qn)
+		queuePart(rep, *model, *seed, *qn, *full)
 	}
 	r := rand.New(rand.NewSource(*seed))
 	frames := []int{64, 300, 1024, 4096}
